@@ -203,6 +203,8 @@ impl<'a, 'b, 'c, const N: usize> VxContainsStr<&'a &'b Str> for [&'c Str; N] {
 // Vec<String>::reverse() and [String]::join(sep) (method_to_fn reverse -> vx_reverse_strs, join -> vx_join_strs)
 pub open spec fn flat_strs(parts: Seq<Str>, n: int) -> Seq<char> decreases n
 { if n <= 0 { Seq::empty() } else { flat_strs(parts, n - 1) + parts[n - 1]@ } }
+pub open spec fn join_sep_strs(parts: Seq<Str>, sep: Seq<char>, n: int) -> Seq<char> decreases n
+{ if n <= 0 { Seq::empty() } else if n == 1 { parts[0]@ } else { join_sep_strs(parts, sep, n - 1) + sep + parts[n - 1]@ } }
 pub trait VxStrVec {
     fn vx_reverse_strs(&mut self);
     fn vx_join_strs(&self, sep: &Str) -> Str;
@@ -211,5 +213,6 @@ impl VxStrVec for Vec<Str> {
     #[verifier::external_body]
     fn vx_reverse_strs(&mut self) ensures final(self)@ == old(self)@.reverse() { self.reverse() }
     #[verifier::external_body]
-    fn vx_join_strs(&self, sep: &Str) -> (r: Str) ensures sep@.len() == 0 ==> r@ == flat_strs(self@, self@.len() as int) { unimplemented!() }
+    fn vx_join_strs(&self, sep: &Str) -> (r: Str)
+        ensures sep@.len() == 0 ==> r@ == flat_strs(self@, self@.len() as int), r@ == join_sep_strs(self@, sep@, self@.len() as int) { unimplemented!() }
 }
